@@ -78,3 +78,57 @@ def loop_fn(text):
 
 def unit(text):
     return "use vstd::prelude::*;\nverus! {\n" + model() + loop_fn(text) + vlib.verus_canary("canary_c06_run", "x: u64", []) + "\n} // verus!\nfn main() {}\n"
+
+
+# ---- Interpreter::compile(): every plan step, once, in plan order, into one fresh context ---------------------------------------------------------
+COMPILE_MODEL = """
+#[derive(Clone, Copy, PartialEq, Eq, Structural)]
+pub struct Step { pub id: u64 }
+pub struct MechError { pub id: u64 }
+// a compile context: the ghost list of the steps compiled into it so far
+pub struct CompileCtx { pub log: Ghost<Seq<Step>> }
+pub uninterp spec fn step_ok(s: Step, before: Seq<Step>) -> bool;        // MechFunctionCompiler::compile succeeds (may depend on what was compiled before)
+pub uninterp spec fn bytes_of(log: Seq<Step>) -> Option<Seq<u8>>;        // CompileCtx::compile: the serialised program (None = error)
+impl CompileCtx {
+  #[verifier::external_body] pub fn new() -> (r: CompileCtx) ensures r.log@ == Seq::<Step>::empty(), { unimplemented!() }
+  #[verifier::external_body] pub fn compile(&mut self) -> (r: Result<Vec<u8>, MechError>)
+    ensures final(self).log == old(self).log, (match r { Ok(b) => bytes_of(old(self).log@) == Some(b@), Err(_) => bytes_of(old(self).log@) is None }), { unimplemented!() }
+}
+impl Step {
+  #[verifier::external_body] pub fn compile(&self, ctx: &mut CompileCtx) -> (r: Result<u32, MechError>)
+    ensures (match r { Ok(_) => step_ok(*self, old(ctx).log@) && final(ctx).log@ == old(ctx).log@.push(*self), Err(_) => !step_ok(*self, old(ctx).log@) }), { unimplemented!() }
+}
+pub struct Interp { pub context: Option<CompileCtx> }
+// ---- THE CONTRACT (C06: "compiling ... emits bytecode" of THE program): the bytes are the serialisation of a fresh context into which every step of the plan was
+// compiled exactly once, in plan order; the first step that fails to compile fails the whole compilation
+pub open spec fn all_ok(plan: Seq<Step>, n: int) -> bool { forall|k: int| 0 <= k < n ==> step_ok(#[trigger] plan[k], plan.subrange(0, k)) }
+"""
+
+
+def compile_fn(text):
+    """`Interpreter::compile` (whole body): the borrows `self.state.borrow()` / `state_brrw.plan.borrow_mut()` are removed and the plan becomes the parameter
+    `plan_brrw: &Vec<Step>`; `for step in plan_brrw.iter()` -> index loop; `self` -> `self_`; `MResult` -> `Result<_, MechError>`"""
+    m = find_code(text, r"pub\s+fn\s+compile\s*\(\s*&mut\s+self\s*\)\s*->\s*MResult<Vec<u8>>")
+    if not m:
+        raise AnchorLost("Interpreter::compile not found")
+    e = match_brace(text, text.index("{", m.end()))
+    b = re.sub(r"//[^\n]*", "", text[text.index("{", m.end()) + 1:e - 1]).replace("\r", "")
+    n = 0
+    for pat in (r"let\s+state_brrw\s*=\s*self\.state\.borrow\(\)\s*;", r"let\s+mut\s+plan_brrw\s*=\s*state_brrw\.plan\.borrow_mut\(\)\s*;"):
+        b, k = re.subn(pat, "", b)
+        n += k
+    b, k = re.subn(r"for\s+(\w+)\s+in\s+plan_brrw\.iter\(\)\s*\{",
+                   lambda mm: ("for i_ in 0..plan_brrw.len()\n      invariant ctx.log@ =~= plan_brrw@.subrange(0, i_ as int), all_ok(plan_brrw@, i_ as int),\n    {\n"
+                               "      let %s = &plan_brrw[i_];\n      proof { assert(plan_brrw@.subrange(0, i_ + 1) =~= plan_brrw@.subrange(0, i_ as int).push(plan_brrw@[i_ as int])); }" % mm.group(1)), b)
+    b = re.sub(r"\bself\b", "self_", b)
+    if n != 2 or k != 1 or re.search(r"\b(borrow|borrow_mut|iter)\b", b):
+        raise AnchorLost("Interpreter::compile: the body is outside the transcription rules")
+    return ("fn interpreter_compile(self_: &mut Interp, plan_brrw: &Vec<Step>) -> (res: Result<Vec<u8>, MechError>)\n"
+            "  ensures (match res {\n"
+            "      Ok(bytes) => all_ok(plan_brrw@, plan_brrw@.len() as int) && bytes_of(plan_brrw@) == Some(bytes@),\n"
+            "      Err(_) => !all_ok(plan_brrw@, plan_brrw@.len() as int) || bytes_of(plan_brrw@) is None }),\n{\n" + b +
+            "\n}\n").replace("let bytes = ctx.compile()?;", "proof { assert(plan_brrw@.subrange(0, plan_brrw@.len() as int) =~= plan_brrw@); }\n    let bytes = ctx.compile()?;")
+
+
+def compile_unit(text):
+    return "use vstd::prelude::*;\nverus! {\n" + COMPILE_MODEL + compile_fn(text) + vlib.verus_canary("canary_c06_compile", "x: u64", []) + "\n} // verus!\nfn main() {}\n"
